@@ -29,7 +29,7 @@ func tlsConfigField(w *World, name string) *types.Var {
 }
 
 func checkC05(w *World, r *Report) {
-	r.Explanation = "Decides the configuration-to-TLS dataflow that peer authentication rests on: (R05.1) certificate verification can be disabled only by ClientConfig.GetTlsConfig under the user's insecure option and by the documented stdio+tls exception; no verification callback overrides exist; (R05.2) whenever the server's TLS configuration is returned successfully with requireClientCert set, ClientAuth=RequireAndVerifyClientCert has been stored, and the configuration is never dereferenced on the error path; (R05.3) a configured CA is installed as both RootCAs and ClientCAs; (R05.4) the StartTLS ServerName is the upstream's host name without port at every call site; (R05.5) every tls.Client/Dial/Server/Listen and every TLSConfig/TLSClientConfig field takes its configuration from the certificate manager; (R05.8) the server handshake returns a connection that is not the result of its TLS handshake only on paths where the client-certificate requirement (a flag derived from tls.Config.ClientAuth) is known absent or the carrier is already secure — a client cannot dodge requireClientCert by not asking for StartTLS; (R05.9) every tls.Dial whose address argument is a resolved address (net.Addr.String()) is preceded on every path by a store of the upstream URL's Hostname() into the configuration's ServerName — otherwise crypto/tls checks the certificate against the IP address; (R05.6) both ends of a password-protected UDP endpoint derive the key with identical constants, constructor and salt scheme and pass the derived cipher on. Not decided: crypto/x509 chain validation, expiry, kcp's cipher."
+	r.Explanation = "Decides the configuration-to-TLS dataflow that peer authentication rests on: (R05.1) certificate verification can be disabled only by ClientConfig.GetTlsConfig under the user's insecure option and by the documented stdio+tls exception; no verification callback overrides exist; (R05.2) whenever the server's TLS configuration is returned successfully with requireClientCert set, ClientAuth=RequireAndVerifyClientCert has been stored, and the configuration is never dereferenced on the error path; (R05.3) a configured CA is installed as both RootCAs and ClientCAs; (R05.4) the StartTLS ServerName is the upstream's host name without port at every call site; (R05.5) every tls.Client/Dial/Server/Listen and every TLSConfig/TLSClientConfig field takes its configuration from the certificate manager; (R05.8) the server handshake returns a connection that is not the result of its TLS handshake only on paths where the client-certificate requirement (a flag derived from tls.Config.ClientAuth) is known absent or the carrier is already secure — a client cannot dodge requireClientCert by not asking for StartTLS; (R05.9) every tls.Dial whose address argument is a resolved address (net.Addr.String()) is preceded on every path by a store of the upstream URL's Hostname() into the configuration's ServerName — otherwise crypto/tls checks the certificate against the IP address; (R05.10) no value of the base type cert.Config is ever used as a cert.TlsConfig manager outside package cert — only ServerConfig applies requireClientCert and only ClientConfig applies the insecure option, and the embedded base satisfies the interface too; (R05.6) both ends of a password-protected UDP endpoint derive the key with identical constants, constructor and salt scheme and pass the derived cipher on. Not decided: crypto/x509 chain validation, expiry, kcp's cipher."
 	r.NotDecided = []string{"certificate chain validation (crypto/x509)", "expiry", "kcp cipher behaviour", "pbkdf2 key length 64 is not an AES key size: password-protected UDP fails closed on both ends (observed, outside the property)"}
 	r.Trusted = []string{"crypto/tls verifies the peer unless InsecureSkipVerify / ClientAuth say otherwise", "(*url.URL).Hostname() strips the port"}
 	r.Rule("R05.1", "who may disable certificate verification (exactly the two allowed writers)", 2)
@@ -39,6 +39,7 @@ func checkC05(w *World, r *Report) {
 	r.Rule("R05.5", "every TLS primitive takes its config from the manager", 6)
 	r.Rule("R05.6", "shared-secret key derivation agrees on both ends", 1)
 	r.Rule("R05.8", "a server whose TLS configuration demands client certificates admits no clear-text session", 1)
+	r.Rule("R05.10", "the role-less base certificate Config never acts as a certificate manager", 1)
 	r.Rule("R05.9", "a TLS dial to a resolved address verifies the certificate against the configured host name", 1)
 	r.Rule("R05.7", "GetTlsConfig hands out a fresh configuration (callers mutate it)", 3)
 
@@ -51,6 +52,7 @@ func checkC05(w *World, r *Report) {
 	c05FreshConfig(w, r, "R05.7")
 	c05NoPlainAdmission(w, r)
 	c05DialServerName(w, r)
+	c05RoleConfig(w, r)
 }
 
 func c05WhoDisables(w *World, r *Report) {
@@ -919,6 +921,23 @@ func c05NoPlainAdmission(w *World, r *Report) {
 		})
 	}
 	secureF := fieldOf(scNamed, "secure")
+	factsJustify := func(facts map[ssa.Value]bool) bool {
+		for v, t := range facts {
+			for f := range reqFields {
+				if isLoadOfField(v, f) && !t {
+					return true
+				}
+			}
+			if secureF != nil && isLoadOfField(v, secureF) && t {
+				return true
+			}
+			// the requirement tested directly on the configuration
+			if derivesFromClientAuth(v) && !t {
+				return true
+			}
+		}
+		return false
+	}
 	bad := ""
 	nplain, ntls := 0, 0
 	okp := enumPaths(up, nil, nil, nil, func(e pathExit) {
@@ -941,19 +960,50 @@ func c05NoPlainAdmission(w *World, r *Report) {
 			return
 		}
 		nplain++
-		justified := false
-		for v, t := range e.State.Facts {
-			for f := range reqFields {
-				if isLoadOfField(v, f) && !t {
+		justified := factsJustify(e.State.Facts)
+		if !justified {
+			// a guard helper: `if sc.mustRefusePlain() { refuse }` — every path of the helper that answers
+			// false must itself establish "no requirement" or "already secure"
+			for v, t := range e.State.Facts {
+				call, ok := v.(*ssa.Call)
+				if !ok || t {
+					continue
+				}
+				callee := call.Call.StaticCallee()
+				if callee == nil || !inModule(callee) || len(callee.Blocks) == 0 || callee.Signature.Results().Len() != 1 {
+					continue
+				}
+				okAll, nfalse := true, 0
+				enumPaths(callee, nil, nil, nil, func(he pathExit) {
+					ret, isRet := he.Last.(*ssa.Return)
+					if !isRet {
+						return
+					}
+					rv := he.State.Resolve(ret.Results[0])
+					if b, isC := constBool(rv); isC && b {
+						return
+					}
+					if tv, known := he.State.Truth(rv); known && tv {
+						return
+					}
+					nfalse++
+					f2 := map[ssa.Value]bool{}
+					for k, x := range he.State.Facts {
+						f2[k] = x
+					}
+					if _, isC := constBool(rv); !isC {
+						f2[rv] = false // the returned expression itself is false on this outcome
+						if b, ok := rv.(*ssa.BinOp); ok {
+							_ = b
+						}
+					}
+					if !factsJustify(f2) {
+						okAll = false
+					}
+				})
+				if okAll && nfalse > 0 {
 					justified = true
 				}
-			}
-			if secureF != nil && isLoadOfField(v, secureF) && t {
-				justified = true
-			}
-			// the requirement tested directly on the configuration
-			if derivesFromClientAuth(v) && !t {
-				justified = true
 			}
 		}
 		if !justified && bad == "" {
@@ -1079,4 +1129,59 @@ func c05DialServerName(w *World, r *Report) {
 	if n == 0 {
 		r.Hold("R05.9", "call:tls.Dial", "-", "no tls.Dial in the module (TLS carriers are built by tls.Client / listeners only)")
 	}
+}
+
+// c05RoleConfig: R05.10 — ServerConfig and ClientConfig embed Config, and all three have GetTlsConfig.
+// Passing the embedded base (&x.Config) where a manager is expected compiles, and silently drops
+// requireClientCert (server) or the insecure option (client).
+func c05RoleConfig(w *World, r *Report) {
+	base := w.Named("internal/util/cert", "Config")
+	iface := w.Interface("internal/util/cert", "TlsConfig")
+	if base == nil || iface == nil {
+		r.Undecided("R05.10", "anchor", "-", "anchor unresolved: cert.Config / cert.TlsConfig")
+		return
+	}
+	n := 0
+	var bad []string
+	for fn := range allModuleFuncs(w, w.SSA()) {
+		f0 := fn
+		for f0.Parent() != nil {
+			f0 = f0.Parent()
+		}
+		if f0.Pkg == nil || f0.Pkg.Pkg.Path() == modPath+"/internal/util/cert" {
+			continue
+		}
+		allInstrs(fn, func(in ssa.Instruction) {
+			mi, ok := in.(*ssa.MakeInterface)
+			if !ok {
+				return
+			}
+			it, ok := mi.Type().Underlying().(*types.Interface)
+			if !ok || !types.Identical(it, iface) {
+				// also interfaces that merely contain GetTlsConfig
+				if !ok || it.NumMethods() == 0 {
+					return
+				}
+				has := false
+				for i := 0; i < it.NumMethods(); i++ {
+					if it.Method(i).Name() == "GetTlsConfig" {
+						has = true
+					}
+				}
+				if !has {
+					return
+				}
+			}
+			n++
+			t := mi.X.Type()
+			if p, ok := t.(*types.Pointer); ok {
+				t = p.Elem()
+			}
+			if nt, ok := t.(*types.Named); ok && nt.Obj() == base.Obj() {
+				bad = append(bad, fmt.Sprintf("%s: %s hands the embedded base cert.Config out as the certificate manager: its GetTlsConfig knows neither requireClientCert nor the insecure option, so the role's setting is silently dropped", w.Pos(mi.Pos()), ssaFuncKey(fn)))
+			}
+		})
+	}
+	sort.Strings(bad)
+	r.Check(len(bad) == 0 && n > 0, "R05.10", "managers:cert.TlsConfig", "-", fmt.Sprintf("%d value(s) boxed as certificate manager, none of the role-less base type", n), strings.Join(bad, "; ")+mapStr(n == 0, "no certificate manager value found"))
 }
